@@ -30,6 +30,10 @@ func PushScenario(t *rapid.T) sim.Scenario {
 			Delay: pick(t, "delay", []int{1, 50, 9000, 200000}),
 		})
 	}
+	if rapid.IntRange(0, 5).Draw(t, "sendfault") == 0 {
+		// the channel refuses one of the first records the server sends
+		sc.Cfg.Faults = append(sc.Cfg.Faults, sim.Fault{Op: "send", At: rapid.IntRange(1, 5).Draw(t, "faultat"), Kind: "err"})
+	}
 	n := rapid.IntRange(3, 22).Draw(t, "nsteps")
 	pushes := 0
 	var callbacks []int  // outside callback serials issued
@@ -67,7 +71,7 @@ func PushScenario(t *rapid.T) sim.Scenario {
 		case roll < 22:
 			pushes++
 			kind := pick(t, "kind", []string{"callback", "callback", "notify"})
-			st = sim.Step{Op: "push", Push: kind, K: pushes, D: pick(t, "deadline", []int{0, 0, 1000, 3000})}
+			st = sim.Step{Op: "push", Push: kind, K: pushes, D: pick(t, "deadline", []int{0, 0, 1000, 3000, -1})}
 			if rapid.IntRange(0, 14).Draw(t, "badparams") == 0 {
 				st.Out = "badparams" // refused before anything is sent
 			} else if kind == "callback" {
